@@ -169,6 +169,7 @@ pub struct MemoryBudget {
     recovery_used: AtomicUsize,
     schema_used: AtomicUsize,
     shared_used: AtomicUsize,
+    alloc_lock: parking_lot::Mutex<()>,
 }
 
 impl MemoryBudget {
@@ -195,6 +196,7 @@ impl MemoryBudget {
             recovery_used: AtomicUsize::new(0),
             schema_used: AtomicUsize::new(0),
             shared_used: AtomicUsize::new(0),
+            alloc_lock: parking_lot::Mutex::new(()),
         }
     }
 
@@ -256,6 +258,8 @@ impl MemoryBudget {
         if bytes == 0 {
             return Ok(());
         }
+
+        let _serialized = self.alloc_lock.lock();
 
         let pool_counter = self.pool_counter(pool);
         let reserved = pool.reserved_size();
